@@ -27,20 +27,26 @@ import (
 	discoveryv1 "k8s.io/api/discovery/v1"
 )
 
-// FindServicePort ...
+// FindServicePort finds the port of a service from the name or the number used to
+// reference it. The lookup follows the precedence of the Kubernetes API: the name
+// of a service port, then the number of a service port. A target port, either its
+// name or its number, is only used if servicePort does not match any service port.
 func FindServicePort(svc *api.Service, servicePort string) *api.ServicePort {
 	for _, port := range svc.Spec.Ports {
-		if port.Name == servicePort || port.TargetPort.String() == servicePort {
+		if port.Name == servicePort {
 			return &port
 		}
 	}
-	svcPortNumber, err := strconv.ParseInt(servicePort, 10, 0)
-	if err != nil {
-		return nil
+	if svcPortNumber, err := strconv.ParseInt(servicePort, 10, 0); err == nil {
+		svcPort := int32(svcPortNumber)
+		for _, port := range svc.Spec.Ports {
+			if port.Port == svcPort {
+				return &port
+			}
+		}
 	}
-	svcPort := int32(svcPortNumber)
 	for _, port := range svc.Spec.Ports {
-		if port.Port == svcPort {
+		if port.TargetPort.String() == servicePort {
 			return &port
 		}
 	}
